@@ -807,7 +807,14 @@ impl CodegenContext {
                                     None => self.current_scope_nx,
                                 };
 
-                                for (child_id, child_nx) in self.symbols.children(import_nx) {
+                                // (in a fixed order: which of several clashing symbols gets reported should not depend on
+                                // the hash seed)
+                                for (child_id, child_nx) in self
+                                    .symbols
+                                    .children(import_nx)
+                                    .into_iter()
+                                    .sorted_by(|a, b| a.0.as_str().cmp(b.0.as_str()))
+                                {
                                     // Do not import special identifiers
                                     if child_id.is_special() {
                                         continue;
